@@ -21,7 +21,10 @@ RULE = (
     "every path, or is in the frozen exemption table with its reason (interning, validation stride counters, the write log that every "
     "Simulator step installs and clears itself). R3 output capture: in the worker loop output_buffer::enable precedes the test's build and "
     "run, output_buffer::take follows them and precedes taking the print lock. R4 dispatch order: the prior timings that sort the queue "
-    "flow into nothing but the sort comparator (and the timing file that is rewritten), never into a test's inputs."
+    "flow into nothing but the sort comparator (and the timing file that is rewritten), never into a test's inputs. R5 random_table::reset clears "
+    "the generators and records the seed on every path; every value get_range returns is computed from both bounds. R6 the digest that keys the "
+    "process-wide comb-pipeline cache hashes every Liveness field collect_dead_offsets decides on, and its selection of offsets does not depend "
+    "on liveness counters."
 )
 
 CRATES = ["veryl_simulator", "veryl", "veryl_parser", "veryl_analyzer"]
@@ -220,6 +223,96 @@ def run(world, tier, info, only=None):
                 ok = "closure" in str(sk[1]) or sk[1] is None or str(sk[1]).startswith("core::")
                 if not ok:
                     ck.ob("R4", "timings-flow:%s/agg:%s" % (_short(p), str(sk[1]).split("::")[-1]), False, site(s, sk[-1]), "prior timings are stored into %s" % sk[1])
+    # ---------------- R5 reset is unconditional; a range draw depends on its bounds -------------------------------------------------
+    import taint
+    RS = "veryl_simulator::random_table::reset"
+    cls = [RS] + [q for q in w.fns if q.startswith(RS + "::{closure")]
+    okc = oks = False
+    for q in cls:
+        if q not in w.fns:
+            continue
+        g5 = Fn(w.mir(q))
+        clears = [bi for bi, t in g5.calls(r"HashMap<.*>::clear$|hash::map::HashMap.*::clear$|::clear$") if flow.access_path(g5, t["args"][0])[1][-1:] == ("rngs",)]
+        seeds = [bi for bi, si, st in flow.field_writes(g5, r"random_table::RandomTable$", "base_seed")]
+        if clears and not flow.escapes(g5, 0, clears):
+            okc = True
+        if seeds and not flow.escapes(g5, 0, seeds):
+            oks = True
+    if RS in w.fns:
+        ck.ob("R5", "reset/clears-generators-on-every-path", okc, site(w.fns[RS]),
+              "random_table::reset drops every generator unconditionally" if okc else
+              "random_table::reset can return without clearing the generators: on a worker thread a test continues the stream of the test that ran before it")
+        ck.ob("R5", "reset/records-seed-on-every-path", oks, site(w.fns[RS]), "random_table::reset records the base seed unconditionally")
+    else:
+        ck.missing("R5", RS)
+    GR = "veryl_simulator::random_table::get_range"
+    if GR in w.fns:
+        g5 = Fn(w.mir(GR))
+        an = {g5.name(i): i for i in range(1, g5.nargs + 1)}
+        tmin = taint.Taint(g5, seed_locals=[an.get("min", -1)], containers=False,
+                           pure=re.compile(r"random_table::(sign_extend|mask)$|random_range$|with_rng$|Value::new$|RangeInclusive.*::new$"))
+        tmax = taint.Taint(g5, seed_locals=[an.get("max", -1)], containers=False,
+                           pure=re.compile(r"random_table::(sign_extend|mask)$|random_range$|with_rng$|Value::new$|RangeInclusive.*::new$"))
+        # the closure handed to with_rng captures lo / hi: treat an aggregate closure built from tainted operands as tainted
+        bad = []
+        nret = 0
+        for bi, b in enumerate(g5.blocks):
+            if b.get("cu"):
+                continue
+            t = b["t"]
+            if t["t"] == "call" and t["dst"][0] == 0 and not t["dst"][1]:
+                nret += 1
+                if not (any(tmin.op_tainted(a) for a in t["args"]) and any(tmax.op_tainted(a) for a in t["args"])):
+                    bad.append("line %s: %s" % (t["l"], (t.get("callee") or "").split("::")[-1]))
+            for st in b["s"]:
+                if st[0] == "=" and st[1] == [0, []]:
+                    nret += 1
+                    ops = [o for o in taint._ops_of(st[2]) if isinstance(o, list)]
+                    if not (any(tmin.op_tainted(o) for o in ops) and any(tmax.op_tainted(o) for o in ops)):
+                        bad.append("line %s" % st[3])
+        ck.ob("R5", "get_range/result-depends-on-both-bounds", nret > 0 and not bad, site(w.fns[GR]),
+              "every value get_range returns is computed from both `min` and `max`" if nret and not bad else
+              "get_range can return a value that does not depend on the requested bounds (%s): that draw is not confined to [min, max]" % bad)
+    else:
+        ck.missing("R5", GR)
+    # ---------------- R6 the comb-pipeline cache key covers what dead-variable elimination reads --------------------------------------
+    CD = "veryl_simulator::ir::opt::dead_var_dce::census_digest"
+    CO = "veryl_simulator::ir::opt::dead_var_dce::collect_dead_offsets"
+    LV = "veryl_simulator::ir::opt::dead_var_dce::Liveness"
+    if CD in w.fns and CO in w.fns and LV in w.adts:
+        lv_fields = [f["name"] for f in w.adts[LV]["variants"][0]["fields"]]
+
+        def reads(fn_paths):
+            out = set()
+            for q in fn_paths:
+                for a, fld in [tuple(x) for x in (w.fns[q].get("fr") or [])]:
+                    if a == LV:
+                        out.add(fld)
+            return out
+        need = reads([CO] + [q for q in w.fns if q.startswith(CO + "::{closure")])
+        cd_cl = [q for q in w.fns if q.startswith(CD + "::{closure")]
+        g6 = Fn(w.mir(CD))
+        filt = set()
+        mapped = set()
+        for bi, t in g6.calls(r"Iterator>?::(filter|map|filter_map)$"):
+            for a in t["args"][1:]:
+                d = g6.def_of(a[1][0]) if a[0] != "k" else None
+                rv = g6.rvalue_at(d) if d and d[0] == "s" else None
+                if rv and rv[0] == "agg" and isinstance(rv[1], dict) and rv[1].get("closure"):
+                    r = reads([rv[1]["closure"]] + [q for q in w.fns if q.startswith(rv[1]["closure"] + "::{closure")])
+                    if t["callee"].endswith("filter"):
+                        filt |= r
+                    else:
+                        mapped |= r
+        ck.ob("R6", "census_digest/covers-liveness-inputs", need <= mapped and bool(need), site(w.fns[CD]),
+              "the digest hashes every Liveness field collect_dead_offsets decides on (%s)" % sorted(need) if need <= mapped and need else
+              "collect_dead_offsets decides on %s but the digest only hashes %s: two event sets that differ there share one cached pipeline" % (sorted(need), sorted(mapped)))
+        ck.ob("R6", "census_digest/selection-independent-of-liveness", not filt, site(w.fns[CD]),
+              "which offsets enter the digest does not depend on their liveness counters" if not filt else
+              "the digest leaves out offsets depending on their liveness (%s): a test that only reads a net and one that does not get the same key, and the "
+              "first one to fill the process-wide cache decides whether the net's driver survives for the other" % sorted(filt))
+    else:
+        ck.missing("R6", CD)
     ck.analysed = {"exec_reachable_functions": len(reach), "thread_locals": keys, "exempt": sorted(EXEMPT_TLS)}
     return ck.finish(info)
 
